@@ -204,8 +204,23 @@ func dominatingStore(v ssa.Value) (stored ssa.Value, ok bool) {
 	if !isLoad || ld.Op != token.MUL {
 		return nil, false
 	}
-	cell := cellOf(ld.X)
-	if cell == nil {
+	var sameCell func(addr ssa.Value) bool
+	if cell := cellOf(ld.X); cell != nil {
+		sameCell = func(addr ssa.Value) bool { return cellOf(addr) == cell }
+	} else if fa, isFA := ld.X.(*ssa.FieldAddr); isFA {
+		// a field of an object identified by value (a literal built here, or the object a parameter points to);
+		// calls made in between are assumed not to rewrite it
+		base := core.Strip(fa.X)
+		switch base.(type) {
+		case *ssa.Alloc, *ssa.Parameter:
+		default:
+			return nil, false
+		}
+		sameCell = func(addr ssa.Value) bool {
+			fa2, ok := addr.(*ssa.FieldAddr)
+			return ok && fa2.Field == fa.Field && core.Strip(fa2.X) == base
+		}
+	} else {
 		return nil, false
 	}
 	fn := ld.Parent()
@@ -213,7 +228,7 @@ func dominatingStore(v ssa.Value) (stored ssa.Value, ok bool) {
 	for _, b := range fn.Blocks {
 		for _, in := range b.Instrs {
 			st, isStore := in.(*ssa.Store)
-			if !isStore || cellOf(st.Addr) != cell {
+			if !isStore || !sameCell(st.Addr) {
 				continue
 			}
 			if core.Dominates(st, ld) {
@@ -230,7 +245,7 @@ func dominatingStore(v ssa.Value) (stored ssa.Value, ok bool) {
 	for _, b := range fn.Blocks {
 		for _, in := range b.Instrs {
 			st, isStore := in.(*ssa.Store)
-			if !isStore || st == best || cellOf(st.Addr) != cell {
+			if !isStore || st == best || !sameCell(st.Addr) {
 				continue
 			}
 			if core.Dominates(best, st) && !core.Dominates(ld, st) && reachesInstr(st, ld) {
@@ -414,24 +429,30 @@ func (c *Ctx) runsBefore(root *ssa.Function, a, b ssa.Instruction) bool {
 	if a.Parent() == b.Parent() {
 		return a != b && core.Dominates(a, b)
 	}
-	as, bs := c.liftTo(root, a), c.liftTo(root, b)
-	if len(as) == 0 || len(bs) == 0 {
-		return false
-	}
-	for _, y := range bs {
-		ok := false
-		for _, x := range as {
-			if x != y && core.Dominates(x, y) {
-				ok = true
+	// judged in the innermost function through which both run: one of their own functions, else root
+	for _, f := range []*ssa.Function{b.Parent(), a.Parent(), root} {
+		as, bs := c.liftTo(f, a), c.liftTo(f, b)
+		if len(as) == 0 || len(bs) == 0 {
+			continue
+		}
+		all := true
+		for _, y := range bs {
+			ok := false
+			for _, x := range as {
+				if x != y && core.Dominates(x, y) {
+					ok = true
+				}
+			}
+			if !ok {
+				all = false
 			}
 		}
-		if !ok {
-			return false
+		if all {
+			return true
 		}
 	}
-	return true
+	return false
 }
-
 
 // sameOrReturned: v is w, or the result of a call of a module function all of whose returns yield w (a set built by a helper).
 func sameOrReturned(v, w ssa.Value) bool {
